@@ -128,7 +128,7 @@ RunMachine(ch, s, limit, cap) ==
   IF s > limit THEN [out |-> "StepLimitExceeded", fin |-> ch[s + 1].st, steps |-> s]
   ELSE IF s + 2 > Len(ch) THEN [out |-> "undetermined", fin |-> ch[1].st, steps |-> s]
   ELSE IF ch[s + 2].done THEN [out |-> "NoErrors", fin |-> ch[s + 2].st, steps |-> s]
-  ELSE IF StateSize(ch[s + 2].st) > StateSize(ch[s + 1].st) + cap
+  ELSE IF cap >= 0 /\ StateSize(ch[s + 2].st) > StateSize(ch[s + 1].st) + cap      \* (negative: a cap beyond 32 bits)
        THEN [out |-> "GrowthCapExceeded", fin |-> ch[s + 2].st, steps |-> s + 1]
   ELSE RunMachine(ch, s + 1, limit, cap)
 
